@@ -51,6 +51,11 @@ def run(ck: Check, prog: Program) -> None:
     ck.functions.add(rf.qualname)
     c06._field_guards(ck, mprog, rf)
     c06._container_guard(ck, mprog, rf)
+    # values taken from the request document are never hashed while they can still be arrays / objects (TypeError out of dispatch)
+    for q_ in ('pjrpc.common.v20' + '.Request.from_json', 'pjrpc.common.v20' + '.BatchRequest.from_json'):
+        hf_ = mprog.func(q_)
+        ck.functions.add(hf_.qualname)
+        c06._hash_uses(ck, mprog, hf_)
     # "a rejected batch (... duplicate ids ...) executes nothing": every id but None takes part in the duplicate check of the
     # strict BatchRequest constructor that from_json uses
     addf = prog.func('pjrpc.common.v20.BatchRequest._add_ids')
@@ -62,6 +67,11 @@ def run(ck: Check, prog: Program) -> None:
 
 
 MUTANTS = [
+    dict(name='size-limit-applied-to-the-undecoded-document', file='pjrpc/server/dispatcher.py', nth=0,
+         find='            request_json = self._json_loader(request_text, cls=self._json_decoder)\n',
+         replace='            request_json = self._json_loader(request_text, cls=self._json_decoder)\n'
+                 '            if self._max_batch_size and len(request_json) > self._max_batch_size:\n'
+                 '                raise pjrpc.exceptions.DeserializationError("batch too large")\n', expect='REJECT-BEFORE-RUN'),
     dict(name='notification-error-answered', file='pjrpc/server/dispatcher.py', nth=0,
          find='        if request.id is None:\n            return UNSET\n\n        return self._response_class(id=request.id, error=error)',
          replace='        return self._response_class(id=request.id, error=error)', expect='NOTIF-SILENT'),
